@@ -118,7 +118,7 @@ impl AuthData {
             Self::RegistrationToken(_) => Some(AuthType::RegistrationToken),
             Self::FallbackAcknowledgement(_) => None,
             Self::Terms(_) => Some(AuthType::Terms),
-            Self::_Custom(c) => Some(AuthType::_Custom(PrivOwnedStr(c.auth_type.as_str().into()))),
+            Self::_Custom(c) => Some(AuthType::from(c.auth_type.as_str())),
         }
     }
 
